@@ -102,7 +102,7 @@ def run(ctx):
     boost = set(re.findall(r"MT(\d{3})", " ".join(ctx.broken)))
     known, _ = load_known(PROP)
     seeds = mtgen.load_seeds(limit=None if ctx.tier == "thorough" else 2)
-    nmut = 40 if ctx.tier == "thorough" else 14
+    nmut = 100 if ctx.tier == "thorough" else 14
     msgs, meta = [], []
     caps = {"204": 10, "210": 10, "935": 10, "920": 100, "940": 500}
     for c, lst in seeds.items():
@@ -139,7 +139,7 @@ def run(ctx):
         layouts = engine.load_layouts()
         pool = layoutgen.harvest_pool(layouts, mtgen.load_seeds())
         g = layoutgen.Gen(layouts, pool, rng)
-        ngen = 120 if ctx.tier == "thorough" else 25
+        ngen = 400 if ctx.tier == "thorough" else 25
         for c in mtgen.SUPPORTED:
             for k in range(ngen * (8 if c in boost else 1)):
                 g.p_opt = rng.choice([0.2, 0.5, 0.8])
